@@ -156,7 +156,9 @@ pub fn run_calls(calls: &[WCall], sink: ScriptedWrite) -> WRun {
     let mut lens = Vec::with_capacity(calls.len());
     for c in calls {
         let r = do_call(&mut w, c);
-        lens.push(w.get_ref().data.len());
+        // the destination is looked at through get_ref() and get_mut() alternately: both are plain accessors
+        let seen = if lens.len() % 2 == 1 { w.get_mut().data.len() } else { w.get_ref().data.len() };
+        lens.push(seen);
         let stop = matches!(r, WRes::Caught(_));
         results.push(r);
         if stop {
